@@ -331,6 +331,22 @@ func BaseStubs() map[string]StubFn {
 		return termOrInt(StrLen(pre))
 	})
 	st["strings.Replace"] = pure(strings.Replace, func(r *Run, a []value) value {
+		if isVec(a[0], a[1]) {
+			n := r.concreteInt(a[3], "Replace n")
+			if n != 1 {
+				panic(unsupported("strings.Replace with n != 1 on vector strings"))
+			}
+			m := vecMode(a[0], a[1])
+			sv, ov := vecOf(a[0], m), vecOf(a[1], m)
+			if len(ov.cps) == 0 {
+				return concatV(a[2], a[0])
+			}
+			i := r.vecIndex(sv, ov, false)
+			if i < 0 {
+				return a[0]
+			}
+			return concatV(concatV(runesV{sv.cps[:i], m}.norm(), a[2]), runesV{sv.cps[i+len(ov.cps):], m}.norm())
+		}
 		n := r.concreteInt(a[3], "Replace n")
 		if n != 1 {
 			panic(unsupported("strings.Replace with n != 1 on symbolic strings"))
@@ -339,7 +355,26 @@ func BaseStubs() map[string]StubFn {
 		// Go: empty old matches at the beginning; SMT str.replace agrees (inserts at front)
 		return termOrString(Replace(strArg(a[0]), old, strArg(a[2])))
 	})
-	st["strings.ReplaceAll"] = pure(strings.ReplaceAll, nil)
+	st["strings.ReplaceAll"] = pure(strings.ReplaceAll, func(r *Run, a []value) value {
+		// vector strings: removal/replacement of a single byte
+		v, ok := a[0].(runesV)
+		old, ok2 := a[1].(string)
+		if !ok || !ok2 || len(old) != 1 {
+			panic(unsupported("ReplaceAll on symbolic strings (only vector string / single-byte old)"))
+		}
+		var out value = ""
+		for _, c := range v.cps {
+			if r.branch(simplifyBool(Eq(c, IntT(int64(old[0]))))) {
+				out = concatV(out, a[2])
+			} else {
+				out = concatV(out, runesV{[]*Term{c}, v.bytes}.norm())
+			}
+		}
+		if rv, ok := out.(runesV); ok {
+			return rv.norm()
+		}
+		return out
+	})
 	st["strings.Split"] = pure(strings.Split, func(r *Run, a []value) value {
 		if isVec(a[0]) {
 			sp, ok := a[1].(string)
